@@ -67,6 +67,9 @@ class C02Facade(Harness):
             yield (f"rows-N{n}-S{_shape_name(shape)}-edges-wsigned", dict(N=n, shape=list(shape), inc=[True] * len(shape), weights="sreal", form="rows", gap=None, spec="edges", nan=False))
         for (n, shape) in [(1, (1, 1)), (2, (2, 2)), (1, (2, 2, 2))]:
             yield (f"rows-N{n}-S{_shape_name(shape)}-shared-tuple", dict(N=n, shape=list(shape), inc=[True] * len(shape), weights="int", form="rows", gap=None, spec="shared_tuple", nan=False))
+        # h2 with 2-D coordinate arrays of different memory layouts (y is a transposed view) and dropna=False: element i of x pairs with element i of y
+        for wk in ("none", "int"):
+            yield (f"h2layout-N4-S2x1-w{wk}", dict(N=4, shape=[2, 1], inc=[True, True], weights=wk, form="h2_layout", gap=None, spec="edges", nan=False))
         # numpy-style edge arrays (right edge always included by static_binning's default)
         for (n, shape) in ([(2, (2, 1)), (1, (1, 2, 2))] if tier == "quick" else [(2, (2, 1)), (2, (1, 2)), (3, (2, 2)), (2, (1, 2, 2))]):
             yield (f"rows-N{n}-S{_shape_name(shape)}-edges-wint", dict(N=n, shape=list(shape), inc=[True] * len(shape), weights="int",
@@ -122,6 +125,13 @@ class C02Facade(Harness):
         if p["form"] == "rows":
             data = np.asarray(rows, dtype=float).reshape((p["N"], D))
             h = E.attempt(facade.h, data, bins, **kw)
+        elif p["form"] == "h2_layout":
+            xs, ys = [r[0] for r in rows], [r[1] for r in rows]
+            xarr = np.asarray([[xs[0], xs[1]], [xs[2], xs[3]]], dtype=float)
+            yarr = np.asarray([[ys[0], ys[2]], [ys[1], ys[3]]], dtype=float).T      # logical order ys[0..3], memory order ys[0], ys[2], ys[1], ys[3]
+            if "weights" in kw:
+                kw["weights"] = np.asarray(kw["weights"]).reshape((2, 2))
+            h = E.attempt(facade.h2, xarr, yarr, bins, dropna=False, **kw)
         elif p["form"] == "h2":
             h = E.attempt(facade.h2, [r[0] for r in rows], [r[1] for r in rows], bins, **kw)
         else:
